@@ -103,6 +103,15 @@ Step(n, e) ==
                    ELSE win
          /\ UNCHANGED << cfg, ws, ended, cbs, closeRet, closeOK, connCloses, lastDel, exited, pendGarbage, cbSeen, k4, k2, pend, closing, texit >>
     [] e.k = "cb" ->
+         \* the agent reports a timeout: the clock must have passed the deadline of the last transmission
+         \* (k+1)*rto after the clock reading taken for transmission k
+         /\ (OnO("C11") /\ e.kind = "timeout" /\ StartOfId(e.id) # 0 /\ e.id \notin k4) =>
+               LET s == st[StartOfId(e.id)]
+                   rs == SelectSeq(Get(ws, e.id, <<>>), LAMBDA w : w.retx)
+                   k == Len(rs)
+                   lastreg == IF k = 0 THEN s.t0 ELSE rs[k].reg
+               IN Require(e.t > lastreg + (k + 1) * s.rto, n, "timeout-event-before-deadline",
+                          [id |-> e.id, at |-> e.t, transmission |-> k, registered_at |-> lastreg, rto |-> s.rto])
          /\ cbs' = Set(cbs, e.p, Append(Get(cbs, e.p, <<>>), [kind |-> e.kind, id |-> e.id, line |-> n]))
          /\ cbSeen' = cbSeen \cup {e.id}
          /\ UNCHANGED << cfg, st, ws, ended, win, closeRet, closeOK, connCloses, lastDel, exited, lastNow, pendGarbage, k4, k2, pend, closing, texit >>
